@@ -28,6 +28,7 @@ var (
 	uniE = []int32{math.MinInt32, -1, 0, 1, 2, 3, 4, math.MaxInt32}
 	uniX = []int{-2, -1, 0, 1, 2, 3, 4}
 	uniV = []int{-1, 0, 1, 2, 3, 4, 5, 6}
+	uniO = []int{0, 1, 2, 3, 4}
 	uniT []time.Time
 	uniZ = []string{"", "A", "B", "a", "aa", "ab", "b", "z", "é", "ÿ"}
 
@@ -163,10 +164,10 @@ func init() {
 
 // FieldNames lists the spec-level field names, in a fixed order.
 // PX/PY are the nested paths P.X / P.Y, E is Emb.E; Pn is 1 when P is nil.
-var FieldNames = []string{"K", "S", "A", "U", "F", "N", "T", "E", "PX", "PY", "Z", "V", "W", "Pn"}
+var FieldNames = []string{"K", "S", "A", "U", "F", "N", "T", "E", "PX", "PY", "Z", "V", "W", "O", "Pn"}
 
 // Path gives the sod field path of a spec-level field name.
-var Path = map[string]string{"K": "K", "S": "S", "A": "A", "U": "U", "F": "F", "N": "N", "T": "T", "E": "Emb.E", "PX": "P.X", "PY": "P.Y", "Z": "Z", "V": "V", "W": "W"}
+var Path = map[string]string{"K": "K", "S": "S", "A": "A", "U": "U", "F": "F", "N": "N", "T": "T", "E": "Emb.E", "PX": "P.X", "PY": "P.Y", "Z": "Z", "V": "V", "W": "W", "O": "O"}
 
 // CaseKind: "" | "lower" | "upper"
 var CaseKind = map[string]string{"S": "lower", "W": "lower", "N": "upper", "PY": "upper"}
@@ -188,6 +189,8 @@ func UniSize(f string) int {
 		return len(uniX)
 	case "V":
 		return len(uniV)
+	case "O":
+		return len(uniO)
 	case "T":
 		return len(uniT)
 	case "Z":
@@ -226,7 +229,7 @@ func zeroCode(f string) int {
 		return caseLower.encode("")
 	case "N", "PY":
 		return caseUpper.encode("")
-	case "Z":
+	case "Z", "O":
 		return 0
 	}
 	return 0
